@@ -49,14 +49,14 @@ def gen_history(rng, length):
     return ops
 
 
-def check_history(res, rng, metric, kind, length):
+def check_history(res, rng, metric, kind, length, ops=None):
     n = int(rng.choice([25, 60, 110])); k = int(rng.choice([3, 6])); dim = 4 if kind != "bits" else 3
     X, L0 = api.gen_dataset(rng, metric, kind, n, dim)
     for t in range(0, min(n - 1, 12), 2):                 # exact twins: a point lists its twin at distance 0 (possibly in column 0)
         X[t + 1] = X[t]; L0[t + 1] = L0[t]
     kw = api.metric_kwds(metric, rng, dim)
     cfg = {"tree_init": bool(rng.integers(4) > 0), "low_memory": bool(rng.integers(2)), "seed": int(rng.integers(10 ** 6))}
-    ops = gen_history(rng, length)
+    ops = gen_history(rng, length) if ops is None else ops
     case = {"metric": metric, "kind": kind, "n": n, "k": k, "cfg": cfg, "ops": [list(o) for o in ops], "data_seed": "derived from VERIF_SEED"}
     key = "history:%s:%s" % (kind, metric)
     idx = NNDescent(X, metric=metric, metric_kwds=kw, n_neighbors=k, random_state=cfg["seed"],
@@ -212,6 +212,10 @@ def run(res, tier, seed, search):
     nh, length, nm = (7, 6, 3) if tier == "quick" else (30, 12, len(METRICS))
     if search:
         nh *= 3
+    # fixed plans, every seed: the normalising metric through every kind of update (one call that replaces AND appends included);
+    # two updates in a row on a prepared index (no query in between); update as the very first operation
+    check_history(res, rng, "dot", "dense32", 0, ops=[("update", 3, 2), ("query", 3), ("update", 4, 0), ("update", 0, 3), ("query", 7), ("pickle",), ("query", 3)])
+    check_history(res, rng, "euclidean", "dense32", 0, ops=[("prepare",), ("update", 2, 3), ("update", 3, 0), ("query", 7), ("update", 0, 2), ("update", 1, 1), ("query", 3)])
     start = (seed * nm) % len(METRICS)
     for i in range(nh):
         metric, kind = METRICS[(start + i % nm) % len(METRICS)]
